@@ -6,13 +6,15 @@
  "replace": [],
  "annotate": ["crypto/crypto_dh.c"],
  "defines": ["VERIF_HALLOC"],
- "models": ["models/bn_model.c", "models/bn_entropy.c"],
+ "models": ["models/bn_model.c", "models/bn_entropy.c", "models/bn_memset.c"],
  "loop_contracts": false,
- "timeout": 600,
+ "matrix": {"DH_FAIL_AT": [-1, 0, 1, 2, 3, 4, 5, 6, 7, 8, 9, 10, 11, 12, 13, 14, 15, 16, 17]},
+ "timeout": 300,
  "assumptions": ["OpenSSL BN = models/bn_model.c: exact ghost values for bin2bn/bn2bin/add/sub/num_bits/set_word; BN_mod_exp and BN_mod_mul abstract (logged, fresh result below the modulus); any constructor/operation may fail; BN_clear_free wipes (OpenSSL's own zeroing assumed)",
                  "exponent law a^x * a^y = a^(x+y) (mod m) is used on paper to read the trace as a^(2^258+priv) mod p",
                  "crypto_entropy_read = models/bn_entropy.c: any 32 bytes or failure (what C11's contract gives a caller)",
-                 "no loops in crypto_dh.c; model loops have compile-time-constant bounds (complete unwinding, not a bounded stand-in)"]
+                 "memset = models/bn_memset.c (C11 7.24.6.1, constant-bound loop)",
+                 "complete case split over the position of the first failing BN/entropy call (matrix DH_FAIL_AT = -1: none fails, k: call k is the first to fail; the -1 instance proves that at most 18 fallible calls are made); no loops in crypto_dh.c; model loops have compile-time-constant bounds (complete unwinding, not a bounded stand-in)"]
 }
 */
 #include "dh.h"
@@ -22,33 +24,41 @@ h_modexp(void)
 {
 	DH_PRE();
 	IN_BYTES(priv, CRYPTO_DH_PRIVLEN, CRYPTO_DH_PRIVLEN);
-	uint8_t * r = malloc(CRYPTO_DH_PUBLEN);
-	BIGNUM * a = malloc(sizeof(BIGNUM));
-	__CPROVER_assume(r != NULL && a != NULL);
+	/* output buffer of exactly 256 bytes; the size goes through a variable so that CBMC treats the object with its
+	   array theory (513 single-byte stores at symbolic positions are costly on a flattened array) */
+	IN(size_t, rsize);
+	__CPROVER_assume(rsize == CRYPTO_DH_PUBLEN);
+	uint8_t * r = malloc(rsize);
+	__CPROVER_assume(r != NULL);
+	/* the base: the one BIGNUM the caller holds (slot 0), any value below 2^2048, public */
 	IN(bn_val_t, aval);
 	__CPROVER_assume(aval < ((bn_val_t)1 << 2048));
-	a->v = aval; a->neg = 0; a->tainted = 0;
-	g_bn_secret_priv = priv;
+	BIGNUM * a = &g_bn.obj[0];
+	g_bn.nalloc = 1; g_bn.obj[0].id = 0; g_bn.alive[0] = 1; g_bn.neg[0] = 0; g_bn.tainted[0] = 0; g_bn.v[0] = aval;
+	g_bn.secret_priv = priv;
 	bn_val_t pv = spec_be_val(priv, 32);
 	int rc;
 
 	rc = blinded_modexp(r, a, priv);
 
-	if (rc == 0) {
-		/* the property, restated: the two exponents are non-negative by construction of the model's assertion,
-		   they add up to 2^258 + priv whatever the blinding, modulus is the RFC prime, base is a */
-		__CPROVER_assert(DH_LOG(0).b + DH_LOG(1).b == pv + ((bn_val_t)1 << 258), "C10: e1 + e2 == 2^258 + priv for every blinding value");
-		__CPROVER_assert(DH_LOG(0).m == spec_group14_value() && DH_LOG(1).m == DH_LOG(0).m && DH_LOG(2).m == DH_LOG(0).m, "C10: modulus is the RFC 3526 group-14 prime");
-		__CPROVER_assert(DH_LOG(0).a == aval && DH_LOG(1).a == aval, "C10: both exponentiations use the given base");
-		VCOVER(pv == 0 && g_dh_rand_val == 0);
-		VCOVER(pv == (((bn_val_t)1 << 256) - 1) && g_dh_rand_val == (((bn_val_t)1 << 256) - 1));
-		VCOVER(DH_LOG(2).out < ((bn_val_t)1 << 2000) && g_oi == 3 && r[3] == 0 && r[255] == 7);
-		VCOVER(DH_LOG(2).out == 0);
-		VCOVER(aval == 0);
-	}
+#if DH_FAIL_AT == BN_FAIL_NONE
+	/* nothing failed: success, and the case split over the first failure position (0 .. 17) is exhaustive */
+	__CPROVER_assert(rc == 0, "C10: blinded_modexp succeeds when no BN / entropy call fails");
+	__CPROVER_assert(g_bn.opcount <= 18, "case split complete: at most 18 fallible calls");
+	/* the property, restated: the exponents are non-negative (asserted inside the model's BN_mod_exp), they add
+	   up to 2^258 + priv whatever the blinding, the modulus is the RFC prime, the base is a */
+	__CPROVER_assert(DH_LOG(0).b + DH_LOG(1).b == pv + ((bn_val_t)1 << 258), "C10: e1 + e2 == 2^258 + priv for every blinding value");
+	__CPROVER_assert(DH_LOG(0).m == spec_group14_value() && DH_LOG(1).m == DH_LOG(0).m && DH_LOG(2).m == DH_LOG(0).m, "C10: modulus is the RFC 3526 group-14 prime");
+	__CPROVER_assert(DH_LOG(0).a == aval && DH_LOG(1).a == aval, "C10: both exponentiations use the given base");
+	VCOVER(pv == 0 && g_bn.rand_val == 0);
+	VCOVER(pv == (((bn_val_t)1 << 256) - 1) && g_bn.rand_val == (((bn_val_t)1 << 256) - 1) && aval == 0);
+	VCOVER(DH_LOG(2).out < ((bn_val_t)1 << 2000) && g_oi == 3 && r[3] == 0 && r[255] == 7);
+	VCOVER(DH_LOG(2).out == 0);
+#else
+	__CPROVER_assert(rc == -1, "C10: a failing BN / entropy call makes blinded_modexp fail");
+	VCOVER(rc == -1 && g_bn.opcount == DH_FAIL_AT + 1);
+#endif
 	__CPROVER_assert(g_bn.dirty_free == dirty0, "C20: no BN_free() of a bignum derived from the private or blinding value");
-	VCOVER(rc == -1 && g_dh_rand_fail == rfail0 + 1);
-	VCOVER(rc == -1 && g_bn.ncalls == ncalls0 + 2);
-	VCOVER(rc == -1 && g_bn.ncalls == ncalls0 && g_bn.nfail == nfail0 + 1 && g_dh_rand_calls != 0);
-	free(priv); free(r); free(a);
+	__CPROVER_assert(g_bn.live == live0, "C20/C14: every BIGNUM and BN_CTX created is released on this exit");
+	free(priv); free(r);
 }
